@@ -107,6 +107,7 @@ import itertools
 
 from ..cfg import ALL, NORMAL
 from ..dataflow import defs_of, origins, reaching_defs
+from ..facts import expand_test
 from ..model import ancestors, enclosing_stmt, parent, unparse, walk_no_nested
 from ..selftest import V
 from ._util_D import (
@@ -674,6 +675,40 @@ def _accumulated(f, e, use, limit=8):
     return out
 
 
+def _test_views(f, t, barrier=()):
+    """[the condition of CFG test node `t` as written, the same condition with every local temporary replaced by the
+    expression it was assigned] - the second only when each such local has exactly one reaching definition (a plain,
+    un-awaited assignment, see facts.expand_test) and no node of `barrier` (the assembly stages, which change what the
+    defining expression would evaluate to) can run between that definition and the test: `k = len(wf.steps)` taken
+    before the workflow is populated says nothing about the workflow that is tested afterwards."""
+    g = f.cfg
+    views = [t.ast]
+    names = {}
+    for x in ast.walk(t.ast):
+        if isinstance(x, ast.Name) and isinstance(x.ctx, ast.Load) and x.id not in names:
+            names[x.id] = x
+    changed = False
+    for name, x in names.items():
+        try:
+            ds = reaching_defs(f, name, x)
+        except Exception:  # noqa: BLE001
+            continue
+        if not (len(ds) == 1 and ds[0].kind == "assign" and ds[0].index is None and ds[0].value is not None and ds[0].stmt is not None):
+            continue
+        if any(isinstance(y, (ast.Await, ast.Yield, ast.YieldFrom)) for y in ast.walk(ds[0].value)):
+            continue
+        dids = g.ids_of(ds[0].stmt) or g.node_containing(ds[0].stmt)
+        if not dids or not g.dominates(dids, t.id):
+            return views
+        after = g.reach(dids, avoid=[t.id])
+        if any(b in after and b not in dids and t.id in g.reach([b]) for b in barrier):
+            return views
+        changed = True
+    if changed:
+        views.append(expand_test(f, t.ast))
+    return views
+
+
 def r3(ctx):
     p = ctx.prog
     f = p.func(f"{RFM}._recover")
@@ -750,20 +785,23 @@ def r3(ctx):
         ctx.ob("R3", "build_graph starts from the failed job's input tokens and its job token", has_inputs and has_job, func=h, node=c, instance="build_graph:inputs",
                message=f"the provenance search does not start from failed_job.inputs (found={has_inputs}) and the job token (found={has_job}): lost inputs are not regenerated")
     # _recover gives up only when there is nothing to recover
+    stage_ids = {i for spec in STAGES for c, _h in sites[spec[0]] for i in g.node_containing(c)}
     for n in g.nodes.values():
         if n.kind != "raise_stmt":
             continue
-        facts = path_facts(g, n.id)
         empty = False
-        for e, v in facts:
-            if isinstance(e, ast.Call) and isinstance(e.func, ast.Attribute) and e.func.attr == "empty" and v is True:
-                empty = True
         for t_ in g.nodes.values():
-            if t_.kind == "test" and g.dominates(t_.id, n.id):
+            if t_.kind == "test" and t_.ast is not None and t_.id != n.id and g.dominates(t_.id, n.id):
                 for k, tr in (("t", True), ("f", False)):
                     if n.id in region(g, t_.id, k) and n.id not in region(g, t_.id, "f" if k == "t" else "t"):
-                        if implies_empty(p, f, t_.ast, tr, lambda x: isinstance(x, ast.Attribute) and x.attr in ("steps", "dag_tokens")):
-                            empty = True
+                        # the test as written and with its operands read through their reaching definitions
+                        # (`k = len(wf.steps); if k == 0` / `e = mapper.dag_tokens.empty(); if e`)
+                        for view in _test_views(f, t_, stage_ids):
+                            for e, v in implied(view, tr):
+                                if isinstance(e, ast.Call) and isinstance(e.func, ast.Attribute) and e.func.attr == "empty" and v is True:
+                                    empty = True
+                            if implies_empty(p, f, view, tr, lambda x: isinstance(x, ast.Attribute) and x.attr in ("steps", "dag_tokens")):
+                                empty = True
         ctx.ob("R3", "_recover aborts only when the token graph / the recovery workflow is empty", empty, func=f, node=n.ast,
                instance=f"abort-guard:{unparse(n.ast.exc.func) if isinstance(n.ast.exc, ast.Call) else 'raise'}:{sum(1 for m in g.nodes.values() if m.kind == 'raise_stmt' and m.id < n.id)}",
                message=f"`{unparse(n.ast)[:80]}` is reached for a non-empty graph / workflow: every recovery is aborted")
@@ -2015,6 +2053,15 @@ VARIANTS = [
     V("provenance search forgets the job's inputs", FM_FILE, _REC, "inputs=[*failed_job.inputs.values(), *(p.token_list[0]", "inputs=[*(p.token_list[0]", "R3"),
     V("first token of every input port joins the provenance search", FM_FILE, _REC, " if isinstance(p, ConnectorPort))", ")", "R3"),
     V("recovery aborted for non-empty graphs", FM_FILE, _REC, "if mapper.dag_tokens.empty():", "if not mapper.dag_tokens.empty():", "R3"),
+    # the abort guards read through a temporary (battery kind testtemp)
+    V("step count of the recovery workflow tested through a temporary", FM_FILE, _REC, "    if len(new_workflow.steps) == 0:",
+      "    n_steps = len(new_workflow.steps)\n    if n_steps == 0:", None),
+    V("emptiness of the token graph tested through a temporary", FM_FILE, _REC, "        if mapper.dag_tokens.empty():",
+      "        no_tokens = mapper.dag_tokens.empty()\n        if no_tokens:", None),
+    V("step count through a temporary, guard inverted", FM_FILE, _REC, "    if len(new_workflow.steps) == 0:",
+      "    n_steps = len(new_workflow.steps)\n    if n_steps != 0:", "R3"),
+    V("token-graph emptiness through a temporary, guard inverted", FM_FILE, _REC, "        if mapper.dag_tokens.empty():",
+      "        no_tokens = mapper.dag_tokens.empty()\n        if not no_tokens:", "R3"),
     V("boundary rules installed on the wrong ports", FM_FILE, f"{FM}._inject_tokens", "if port.name in workflow_output_ports.keys():", "if port.name not in workflow_output_ports.keys():", "R4"),
     V("inner ports never terminate", FM_FILE, f"{FM}._inject_tokens", "boundary_action=BoundaryAction.PROPAGATE | BoundaryAction.TERMINATE)", "boundary_action=BoundaryAction.PROPAGATE)", "R4"),
     V("gather of the step loads not awaited", FM_FILE, f"{FM}._populate_workflow", "    await asyncio.gather(", "    asyncio.gather(", "R6"),
